@@ -35,6 +35,8 @@ var colKinds = []colKind{
 	{id: "uint8", ty: "uint8", bkind: "BUint8", pk: "int", ref: "uint8", lo: 0, hi: 255},
 	{id: "int32", ty: "int32", bkind: "BInt32", pk: "int", ref: "int32", lo: -1 << 31, hi: 1<<31 - 1},
 	{id: "uint16", ty: "uint16", bkind: "BUint16", pk: "int", ref: "uint16", lo: 0, hi: 65535},
+	{id: "int16", ty: "int16", bkind: "BInt16", pk: "int", ref: "int16", lo: -32768, hi: 32767},
+	{id: "uint32", ty: "uint32", bkind: "BUint32", pk: "int", ref: "uint32", lo: 0, hi: 1<<32 - 1},
 	{id: "urune", ty: "int32", bkind: "BUntypedRune", pk: "int", ref: "rune", lo: 'a', hi: 'z'},
 	{id: "trune", ty: "int32", bkind: "BInt32", pk: "int", ref: "rune", lo: 'A', hi: 'Z'},
 	{id: "ubool", ty: "bool", bkind: "BUntypedBool", pk: "bool", ref: "bool"},
@@ -279,6 +281,9 @@ func genTraitEnum(r *rand.Rand, nm *namer, typeName string, nextBlock *int, sp t
 		for i := 0; i < k; i++ {
 			t := e.Consts[r.IntN(len(e.Consts))]
 			c := Const{Name: nm.fresh(9), Val: t.Val, Block: blk, Form: "alias", Rhs: t.Name, Dep: r.IntN(2) == 0}
+			for t.Val == e.Consts[0].Val && c.Name < e.Consts[0].Name {
+				c.Name = nm.fresh(9) // keep the line that names the traits the least (value, name)
+			}
 			e.Consts = append(e.Consts, c)
 		}
 		shape["dup_without_trait_cells"] = true
@@ -286,6 +291,11 @@ func genTraitEnum(r *rand.Rand, nm *namer, typeName string, nextBlock *int, sp t
 	if len(e.Consts) > 0 && r.IntN(100) < sp.dupCells {
 		t := e.Consts[r.IntN(len(e.Consts))]
 		c := Const{Name: nm.fresh(9), Val: t.Val, Block: blk, Form: "alias", Rhs: t.Name, Dep: r.IntN(3) > 0}
+		// the line that names the traits must stay the least (value, name): a duplicate of the
+		// lowest value gets a name that sorts after it
+		for t.Val == e.Consts[0].Val && c.Name < e.Consts[0].Name {
+			c.Name = nm.fresh(9)
+		}
 		for j := range cols {
 			// a duplicate line repeats or changes the trait values
 			cl := drawCell(j, "_", false)
@@ -342,9 +352,10 @@ func dedupTypes(ts []TypeInfo) []TypeInfo {
 // kinds are drawn per file: the common ones always, the expensive ones (renamed time import,
 // other generated enums: each makes every CLI run of the package several seconds slower) for
 // a fraction of the files
-var kindsC05 = []string{"ustr", "tstr", "Str", "uint_", "tint", "int64", "uint64", "uint", "Num"}
+var kindsC05 = []string{"ustr", "tstr", "Str", "uint_", "tint", "int64", "uint64", "uint", "Num",
+	"int8", "uint8", "int16", "uint16", "int32", "uint32", "urune", "trune"}
 var kindsC12 = []string{"ustr", "tstr", "Str", "uint_", "tint", "int64", "uint64", "uint", "Num", "int8", "uint8",
-	"int32", "uint16", "urune", "trune", "ubool", "tbool"}
+	"int16", "uint16", "int32", "uint32", "urune", "trune", "ubool", "tbool"}
 
 func fileKinds(r *rand.Rand, base []string, own []string) []string {
 	out := append([]string{}, base...)
@@ -404,6 +415,20 @@ func randomFileC05(r *rand.Rand) FileDef {
 		fd.Enums = append(fd.Enums, e)
 		parsable = append(parsable, pickParsable(r, distinct)...)
 	}
+	if len(parsable) > 0 && len(fd.Enums) > 1 {
+		// a generator refusal (uniqueness of parsable trait values) concerns the whole CLI run and
+		// cannot be attributed to one enum: files with parsable traits hold a single enum, the
+		// one owning the first parsable trait
+		keep := 0
+		for ei := range fd.Enums {
+			for _, col := range columnsOf(&fd.Enums[ei]) {
+				if col == parsable[0] {
+					keep = ei
+				}
+			}
+		}
+		fd.Enums = []EnumDef{fd.Enums[keep]}
+	}
 	fd.Opts.Parsable = parsable
 	tagParsable(&fd)
 	return fd
@@ -426,6 +451,20 @@ func randomFileC12(r *rand.Rand) FileDef {
 		if r.IntN(5) > 0 {
 			parsable = append(parsable, pickParsable(r, distinct)...)
 		}
+	}
+	if len(parsable) > 0 && len(fd.Enums) > 1 {
+		// a generator refusal (uniqueness of parsable trait values) concerns the whole CLI run and
+		// cannot be attributed to one enum: files with parsable traits hold a single enum, the
+		// one owning the first parsable trait
+		keep := 0
+		for ei := range fd.Enums {
+			for _, col := range columnsOf(&fd.Enums[ei]) {
+				if col == parsable[0] {
+					keep = ei
+				}
+			}
+		}
+		fd.Enums = []EnumDef{fd.Enums[keep]}
 	}
 	fd.Opts.Parsable = parsable
 	tagParsable(&fd)
@@ -524,6 +563,16 @@ func corpusC12() []FileDef {
 			Const{Name: "No", Val: "0", Cells: []Cell{cellOf(kb, "_Flag", "", 0, false), cellOf(kr, "_Letter", "", 'n', false)}},
 			Const{Name: "Yes", Val: "1", Cells: []Cell{cellOf(kb, "_", "", 0, true), cellOf(kr, "_", "", 'y', false)}}),
 	}})
+	// 7. the same constant in two parsable traits of DIFFERENT values, spelled differently on the first
+	//    line (ExactString) and later lines (ExprString): must be refused with the uniqueness diagnostic
+	kt := kindByID("tint")
+	o7 := defaultOpts()
+	o7.Parsable = []string{"Da", "Db"}
+	out = append(out, FileDef{Kind: "corpus", Opts: o7, Traits: true, Enums: []EnumDef{
+		traitEnum("E0", uByName("uint"), 0, []TypeInfo{typeInfoOf(kt)},
+			Const{Name: "Oa", Val: "0", Cells: []Cell{cellOf(kt, "_Da", "", 80, false), cellOf(kt, "_Db", "", 3, false)}},
+			Const{Name: "Ob", Val: "1", Cells: []Cell{cellOf(kt, "_", "", 225, false), cellOf(kt, "_", "", 80, false)}}),
+	}})
 	// 6. two parsable traits with equal cells on one line: the Parse case lists the constant twice
 	o6 := defaultOpts()
 	o6.Parsable = []string{"Wa", "Wb"}
@@ -564,6 +613,9 @@ func tagParsable(fd *FileDef) {
 				if cl.Ty == "time.Duration" {
 					add("parsable_duration_trait")
 				}
+				if narrowBits(cl.Ty) > 0 {
+					add("parsable_narrow_int_trait")
+				}
 				key := cl.Ty + "|" + cl.Kind + "|" + cl.Str + "|" + cl.Int + "|" + strconv.FormatBool(cl.Bool)
 				if seen[key] {
 					add("parsable_traits_equal_cells")
@@ -575,4 +627,17 @@ func tagParsable(fd *FileDef) {
 			add("parsable_traits")
 		}
 	}
+}
+
+// narrowBits is the width of the integer trait types narrower than 64 bits (0 otherwise).
+func narrowBits(ty string) int {
+	switch ty {
+	case "int8", "uint8":
+		return 8
+	case "int16", "uint16":
+		return 16
+	case "int32", "uint32":
+		return 32
+	}
+	return 0
 }
